@@ -196,7 +196,9 @@ def apply_mutation(aprov, m, P=None):
             subs = [fresh(x) for x in m[6]]
             if live:
                 o.value[m[4]:m[5]] = [x["_o"] for x in subs]
-            n["ch"][m[4]:m[5]] = subs
+            # OrderedNamespaceSet.__setitem__(slice) takes at most as many new items as the slice holds (a slice
+            # assignment never grows the list; C01's clause): the abstract side follows that
+            n["ch"][m[4]:m[5]] = subs[:len(n["ch"][m[4]:m[5]])]
         elif kind == "list_reorder":
             new = [n["ch"][i] for i in m[4]]
             if live:
@@ -275,7 +277,7 @@ def gen_mutations(rng, aprov, depth, count):
             _, si, ri, p, n = c
             ln = len(n["ch"])
             new = lambda: rt.gen_elem(rng, max(0, depth - len(p) - 2), None, force=n["elem"])
-            ops = ["insert", "insert", "append", "extend"] + (["pop", "del", "setitem", "setslice", "reorder", "remove"] if ln else [])
+            ops = ["insert", "insert", "append", "extend"] + (["pop", "del", "setitem", "setslice", "setslice", "reorder", "remove"] if ln else [])
             op = rng.choice(ops)
             if op == "insert":
                 m = ["list_insert", si, ri, p, rng.randint(0, ln), new()]
@@ -293,9 +295,13 @@ def gen_mutations(rng, aprov, depth, count):
             elif op == "setitem":
                 m = ["list_setitem", si, ri, p, rng.randrange(ln), new()]
             elif op == "setslice":
-                a = rng.randrange(ln)
-                b = rng.randint(a + 1, ln)
-                m = ["list_setslice", si, ri, p, a, b, [new() for _ in range(b - a)]]
+                # same length, shrinking, growing, empty slice (pure insertion) and negative bounds
+                a = rng.randint(0, ln)
+                b = rng.randint(a, ln)
+                k = rng.choice([b - a, b - a, max(0, b - a - 1), b - a + 1, 0, rng.randint(0, 3)])
+                if rng.random() < .3:
+                    a, b = a - ln, (b - ln if b < ln else None)
+                m = ["list_setslice", si, ri, p, a, b, [new() for _ in range(k)]]
             else:
                 perm = list(range(ln))
                 rng.shuffle(perm)
